@@ -9,6 +9,7 @@ from DIR). Lines that are not `py ` requests pass through unchanged; a `case` li
 Objects are dumped by reflection: the getter names come from the table file, never from this program.
 """
 import argparse
+import os
 import json
 import struct
 import sys
@@ -508,11 +509,8 @@ class Executor:
             return 'EXC ' + name
 
 
-def main():
-    ap = argparse.ArgumentParser()
-    ap.add_argument('--module-dir', required=True)
-    ap.add_argument('--table', required=True)
-    args = ap.parse_args()
+def worker(args):
+    """answer the request lines of ONE case read from stdin (one answer line per input line, flushed at once)"""
     sys.path.insert(0, args.module_dir)
     import similari
     with open(args.table) as f:
@@ -529,6 +527,76 @@ def main():
             out.write(line + ' => ' + ex.answer(request) + '\n')
         else:
             out.write(line + '\n')
+        out.flush()
+
+
+HANG_LIMIT = 3          # after this many hung cases the rest of the run is not executed any more
+CASE_TIMEOUT = 25.0     # seconds without a new answer line
+
+
+def main():
+    """Supervisor: every case runs in a fresh interpreter (so that a replay of one case behaves exactly as it did in
+    the full run: the bindings' logging bridge caches per process), and a call that never returns is detected:
+    the worker is killed, the unanswered request is answered `PANIC hang …`, the remaining requests of the case `EXC Skipped`."""
+    import subprocess, threading, queue
+    ap = argparse.ArgumentParser()
+    ap.add_argument('--module-dir', required=True)
+    ap.add_argument('--table', required=True)
+    ap.add_argument('--worker', action='store_true')
+    args = ap.parse_args()
+    if args.worker:
+        return worker(args)
+    lines = [l.rstrip('\n') for l in sys.stdin]
+    cases, cur = [], []
+    for l in lines:
+        if l.split(' => ', 1)[0].strip().startswith('case') and cur:
+            cases.append(cur); cur = []
+        cur.append(l)
+    if cur: cases.append(cur)
+    out = sys.stdout
+    hangs = 0
+    for case in cases:
+        if not any(l.startswith('py ') for l in case):
+            out.write('\n'.join(case) + '\n'); continue
+        if hangs >= HANG_LIMIT:
+            for l in case:
+                out.write(l + (' => EXC Skipped-after-hangs' if l.startswith('py ') else '') + '\n')
+            continue
+        p = subprocess.Popen([sys.executable, os.path.abspath(__file__), '--worker', '--module-dir', args.module_dir, '--table', args.table],
+                             stdin=subprocess.PIPE, stdout=subprocess.PIPE, text=True)
+        q = queue.Queue()
+        def pump(stream=p.stdout):
+            for l in stream:
+                q.put(l.rstrip('\n'))
+            q.put(None)
+        threading.Thread(target=pump, daemon=True).start()
+        try:
+            p.stdin.write('\n'.join(case) + '\n'); p.stdin.close()
+        except BrokenPipeError:
+            pass
+        got = []
+        while len(got) < len(case):
+            try:
+                a = q.get(timeout=CASE_TIMEOUT)
+            except queue.Empty:
+                a = 'TIMEOUT'
+            if a is None or a == 'TIMEOUT':
+                break
+            got.append(a)
+        if len(got) < len(case):
+            hung = p.poll() is None
+            p.kill()
+            if hung: hangs += 1
+            for k, l in enumerate(case[len(got):]):
+                if not l.startswith('py '):
+                    got.append(l)
+                elif k == 0:
+                    got.append(l + (' => PANIC hang: the Python call did not return within %d s' % int(CASE_TIMEOUT) if hung
+                                    else ' => PANIC the Python interpreter died (exit code %s)' % p.returncode))
+                else:
+                    got.append(l + ' => EXC Skipped')
+        p.wait()
+        out.write('\n'.join(got) + '\n')
     out.flush()
 
 
